@@ -338,11 +338,20 @@ class IoWrite(OpSpec):
         before_bytes = fs.files.get(path)
         scratch = path + ".dry"
         if op.get("via") == "api":
+            holder = {}
+
             def via_api():
-                fs.files[path] = g.write_api(h.obj, layout)
+                holder["raw"] = g.write_api(h.obj, layout)  # the library call; what it returns is judged below
 
             res, ctx = run_io(sess, fs, None, via_api)
             out.probes.append("write_via_api")
+            if res.ok:
+                data_api, err = g.api_bytes(holder.get("raw"))
+                if err:
+                    out.fail(prop, "I3.io.write." + op["game"], err)
+                    out.note = ("io.write", op["game"], path, "api-type", err[:80])
+                    return out
+                fs.files[path] = data_api  # the user program stores the result itself
         else:
             res, ctx = run_io(sess, fs, op.get("io"), lambda: g.write(h.obj, parg, layout),
                               dry=lambda: g.write(h.obj, _path_arg(scratch, op.get("path_type", "str")), layout))
